@@ -463,8 +463,8 @@ def unit_exhaustive(rec: Rec, length: int, secret: str, shard: int, nshards: int
                     rec.exhaustive = False
                     return
                 chain = [{"status": s, "to": t, "form": "abs", "set_cookie": secret == "jar" and (j % 2 == 0)} for j, (s, t) in enumerate(combo)]
-                case = {"start": start, "start_creds": secret == "start_creds", "chain": chain, "method": "POST" if secret in ("auth", "jar") else "GET",
-                        "body": "bytes" if secret in ("auth", "jar") else "none",
+                case = {"start": start, "start_creds": secret == "start_creds", "chain": chain, "method": "POST" if secret in ("auth", "jar") else "PUT" if secret == "proxy_auth" else "GET",
+                        "body": "bytes" if secret in ("auth", "jar", "proxy_auth", "cookie_hdr") else "none",
                         "secrets": [secret] if secret in ("auth", "cookie_hdr", "proxy_auth", "cookies_kw") else [], "jar": secret == "jar", "max_redirects": 10}
                 try:
                     check_case(rec, case)
@@ -490,8 +490,8 @@ def sampled_cases(draw):
         chain[-1]["form"] = draw(st.sampled_from(sorted(TERMINAL_FORMS)))
     secrets = draw(st.lists(st.sampled_from(["auth", "cookie_hdr", "proxy_auth", "cookies_kw"]), unique=True, max_size=4))
     start_creds = draw(st.booleans()) and "auth" not in secrets
-    method = draw(st.sampled_from(["GET", "HEAD", "POST", "PUT", "DELETE"]))
-    body = draw(st.sampled_from(["none", "bytes", "file", "gen"])) if method in ("POST", "PUT", "DELETE") else "none"
+    method = draw(st.sampled_from(["GET", "GET", "HEAD", "POST", "PUT", "PATCH", "DELETE"]))
+    body = draw(st.sampled_from(["none", "bytes", "file", "gen"])) if method != "HEAD" else "none"
     return {"start": draw(st.integers(0, len(ORIGINS) - 1)), "start_creds": start_creds, "chain": chain, "method": method, "body": body,
             "secrets": sorted(secrets), "jar": draw(st.booleans()), "max_redirects": draw(st.sampled_from([10, 10, 1, 2, 3, 4, 6]))}
 
